@@ -415,6 +415,8 @@ def run(R):
         for m in ("mean", "median"):
             items.append(("glue", "deredden", n, w, m))
     # batch the many small items
+    from .. import kvalid
+    kvalid.validate(R, ["downsample_1d_mean", "downsample_2d_mean_flat", "detrend_1d"])
     batches = [items[i::14] for i in range(14)]
     parts = R.pmap(batch_work, batches)
     R.vacuity_witness("c14", sum(p.reached for p in parts) > 0)
